@@ -8,6 +8,11 @@
     `values` / `timepoints` hold garbage under the mask and / or carry 1-5 extra padded visits; likelihood terms,
     sufficient statistics, updated parameters, trajectories, short fits and personalisations are compared
     (bitwise for fill changes, float32 rounding envelope for padding changes); observation counts exactly.
+(C) Recorded programs: the torch operations executed by the real code from the Dataset tensors to the attachment terms, the
+    sufficient statistics, the inputs of the noise update, the updated parameters and the model values are recorded (tracer of
+    C07), sent to `drivers/C06.lean` and analysed by the positional taint analysis of `Model/Taint.lean`: every element of every
+    C06 quantity must be independent of what is stored at the masked positions (`taint_sound`); the translation is validated by
+    evaluating it in Lean against the real tensors, on the loader's zeros and on copies with nan / inf / 1e30 under the masks.
 """
 from __future__ import annotations
 
@@ -21,22 +26,36 @@ from fractions import Fraction
 from . import core
 from .core import fmt_rat
 from . import c04_mstep as c04
+from . import trace_c07 as tr
 
 PROP = "C06"
 LEAN = dict(
     props="LeaspyVerif.Props.C06",
     driver="drivers/C06.lean",
     harness="c06_masked.py",
-    extra_modules=["LeaspyVerif.Model.Masked", "LeaspyVerif.Lemmas.Masked"],
+    extra_modules=["LeaspyVerif.Model.Masked", "LeaspyVerif.Lemmas.Masked", "LeaspyVerif.Model.Trace", "LeaspyVerif.Model.Taint",
+                   "LeaspyVerif.Lemmas.Taint"],
     theorems=["wsum_mask_irrelevant", "wsumDim_mask_irrelevant", "wsum_only_unmasked", "wsum_padding_irrelevant",
               "wsumDim_padding_irrelevant", "xsum_perm", "nonfinite_never_propagates", "weightedValue_masked_zero",
               "binop_weight_table", "nonInterference", "sums_equal", "counts_equal", "eval_observed", "observedOnly",
-              "noise_update_observedOnly", "scalarNoiseOld_counterexample", "eval_padding", "padding_irrelevant"],
+              "noise_update_observedOnly", "scalarNoiseOld_counterexample", "eval_padding", "padding_irrelevant",
+              "taint_sound", "taint_sound_masked", "padding_content_irrelevant_partial", "exFilledSum_clean",
+              "unfilled_weighted_sum_counterexample", "unmasked_sum_counterexample"],
     trusted_extra=[
         "values of the Lean model are exact rationals + {inf,-inf,nan} with IEEE rules for the specials; rounding and signed "
         "zeros are not modelled: the tensor-level correspondence uses small dyadic values in float64 tensors, on which the arithmetic is exact (results not representable in float64 are counted and excluded)",
         "broadcasting is done by the harness before the model is called (all operands of one expression share one shape)",
         "real-code metamorphic runs (part B) are a search for counterexamples of the property, not a proof about torch",
+        "recorded programs (part C): the torch operations the real code executes from the Dataset tensors to the C06 quantities are "
+        "recorded on every run (tracer of C07, harness/trace_c07.py), translated to a gather program (Taint.toGather: per output "
+        "element the list of input elements it is computed from) and analysed in Lean; taint_sound holds for every interpretation of the "
+        "scalar operations and every content of the garbage positions. Trusted, validated on every run and not proved: the tracer's "
+        "dataflow reconstruction and the translation tables — the gather evaluation on doubles must reproduce every recorded real tensor "
+        "(also on recordings with nan / inf / 1e30 actually stored under the masks) and must equal Trace.fnApply's evaluation node by node",
+        "recorded programs — scope: executed paths only; the premise (which cells are garbage) is supplied by the harness: cells of "
+        "Dataset.values with mask 0, ages of visits without any observed feature; a WeightedTensor output may hold garbage where its own "
+        "weight is 0; one recorded program has one padding amount (programs of re-padded copies are compared up to shapes; the amount "
+        "itself is covered by padding_irrelevant for the expression language and by part B); fits and personalisations are not recorded",
     ],
     assumptions=[
         "state level (put_data_variables): the age of a visit whose features are all missing is weighted 0 and is overwritten with garbage too; API level (fit / personalize read ages through Dataset.to_pandas): only padding slots of `timepoints` are overwritten",
@@ -400,6 +419,9 @@ def build_dataset(env, case):
                 df.loc[j, fts] = float("nan")
                 if not all((df.groupby("ID")[f].count() >= 2).sum() >= 2 for f in fts):
                     df.loc[j, fts] = old
+    if case["noise"] == "bernoulli":
+        for f in fts:
+            df[f] = (df[f] > df[f].median()).astype(float).where(df[f].notna())
     if case["model"] == "joint":
         data = env.Data.from_dataframe(df, "joint", drop_full_nan=False)
     else:
@@ -409,6 +431,8 @@ def build_dataset(env, case):
     kw = dict(dimension=case["n_ft"], source_dimension=case["src"])
     if case["noise"] in ("scalar", "diagonal"):
         kw["obs_models"] = "gaussian-" + case["noise"]
+    elif case["noise"] == "bernoulli":
+        kw["obs_models"] = "bernoulli"
     model = env.model_factory(name, **kw)
     model.initialize(dataset)
     n_nonnan = int(df[fts].notna().sum().sum())
@@ -645,6 +669,8 @@ def fresh_model(env, case, D):
     kw = dict(dimension=case["n_ft"], source_dimension=case["src"])
     if case["noise"] in ("scalar", "diagonal"):
         kw["obs_models"] = "gaussian-" + case["noise"]
+    elif case["noise"] == "bernoulli":
+        kw["obs_models"] = "bernoulli"
     m = env.model_factory(case["model"], **kw)
     m.initialize(D)
     return m
@@ -715,6 +741,398 @@ def fit_and_personalize(env, chk, case, cj, D, vr):
         chk.tag("fit_variant", name)
 
 
+
+# =====================================================================================================
+# (C) recorded programs: positional taint analysis in Lean (`Model/Taint.lean`)
+# =====================================================================================================
+TR_RTOL = 2e-4
+F31 = "F31"
+
+
+def dataset_leaves(env, D):
+    """Every tensor held by the Dataset: the inputs of the recorded program."""
+    return [(k, v) for k, v in vars(D).items() if isinstance(v, env.torch.Tensor)]
+
+
+def garbage_roles(env, D, T):
+    """The premise of the property, per data input of the recorded program (in the tracer's order): the mask is a known
+    constant; cells of `values` with mask 0 and ages of visits without any observed feature are garbage; the rest is clean."""
+    roles = []
+    for nd in T.nodes:
+        if nd.kind not in "IJ":
+            continue
+        if nd.name == "mask":
+            roles.append("k")
+        elif nd.name == "values":
+            roles.append("d" + "".join("1" if b else "0" for b in (D.mask == 0).reshape(-1).tolist()))
+        elif nd.name == "timepoints":
+            roles.append("d" + "".join("1" if b else "0" for b in (~(D.mask > 0).any(dim=-1)).reshape(-1).tolist()))
+        else:
+            roles.append("c")
+    return ";".join(roles) if roles else "_"
+
+
+def c06_quantities(env, case, model, D, st=None):
+    """The quantities C06 names, computed by the real code from the Dataset `D`: every State variable that depends on the
+    data, the sufficient statistics, the parameters after `update_parameters` (burn-in and not).  Returns
+    [(label, tensor, weight tensor or None)]: for a WeightedTensor the value is required clean only where its weight is not 0."""
+    torch, WT = env.torch, env.WT
+    from leaspy.variables.specs import DataVariable
+    st = model.state.clone(disable_auto_fork=True) if st is None else st
+    model.put_data_variables(st, D)
+    torch.manual_seed(case["seed"])
+    st.put_individual_latent_variables(env.LVInit.PRIOR_SAMPLES, n_individuals=D.n_individuals)
+    dag = st.dag
+    roots = {n for n in dag if isinstance(dag[n], DataVariable)}
+    names = [n for n in dag if n not in roots and set(dag.sorted_ancestors[n]) & roots]
+    out = []
+
+    def add(label, v):
+        if isinstance(v, WT):
+            out.append((label + ".value", v.value, v.weight))
+            if v.weight is not None:
+                out.append((label + ".weight", v.weight, None))
+        elif isinstance(v, torch.Tensor):
+            out.append((label, v, None))
+    for n in names:
+        add(n, st[n])
+    S = type(model).compute_sufficient_statistics(st)
+    for k, v in S.items():
+        add(f"S[{k}]", v)
+    for burn in (True, False):
+        w = st.clone(disable_auto_fork=True)
+        type(model).update_parameters(w, S, burn_in=burn)
+        for p_ in w.dag.sorted_variables_by_type[env.MP]:
+            add(f"param[{p_}]{'@burn' if burn else ''}", w[p_])
+    return out
+
+
+def record_quantities(env, case, model, D):
+    leafmap, keep = {}, []
+    for k, v in dataset_leaves(env, D):
+        leafmap[id(v)] = ("I", k)
+        keep.append(v)
+    T = tr.Tracer(-1, leafmap, keep)      # no batch axis here: every tensor outside the Dataset is population-level ("clean")
+    with T:
+        q = c06_quantities(env, case, model, D)
+    outs = [(lab, T.out_node(t), t, None if w is None else T.out_node(w), w) for (lab, t, w) in q]
+    return T, outs
+
+
+OBS_ONLY_LABELS = ("param[noise_std]", "nll_attach")
+
+
+def prepared_state(env, case, model, D, patch_model=None):
+    """State with the data and a fixed latent draw; `model` is evaluated (and optionally overwritten at the cells of `y` that
+    are not observed) before anything downstream of it."""
+    torch = env.torch
+    st = model.state.clone(disable_auto_fork=True)
+    model.put_data_variables(st, D)
+    torch.manual_seed(case["seed"])
+    st.put_individual_latent_variables(env.LVInit.PRIOR_SAMPLES, n_individuals=D.n_individuals)
+    m = st["model"]
+    if patch_model is not None:
+        m = torch.where(D.mask == 0, patch_model, m)
+        st._values["model"] = m       # (the cached value of the linked variable: what every statistic reads)
+    return st, m
+
+
+def downstream_of_model(env, st, model):
+    out = []
+    for n in [k for k in st.dag if k.startswith("nll_attach")]:
+        v = st[n]
+        out.append((n, v.weighted_value if isinstance(v, env.WT) else v, None))
+    S = type(model).compute_sufficient_statistics(st)
+    for burn in (True, False):
+        w = st.clone(disable_auto_fork=True)
+        type(model).update_parameters(w, S, burn_in=burn)
+        if "noise_std" in w.dag:
+            out.append((f"param[noise_std]{'@burn' if burn else ''}", w["noise_std"], None))
+    return out
+
+
+def record_observed_only(env, case, model, D):
+    """Second premise ("noise estimates and attachment use observed entries only"): the model values at the cells of `y` that are
+    not observed (missing inside a visit, wholly missing visits, padding) are declared garbage, together with `y` under its mask;
+    recorded: everything downstream of `model` up to the attachment terms and the updated noise_std."""
+    st, m = prepared_state(env, case, model, D)
+    y = st["y"]
+    leafmap = {id(m): ("I", "model"), id(y.value): ("I", "values"), id(y.weight): ("I", "mask")}
+    T = tr.Tracer(-1, leafmap, [m, y.value, y.weight])
+    T.preload([m, y.value, y.weight])
+    with T:
+        q = downstream_of_model(env, st, model)
+    outs = [(lab, T.out_node(t), t, None, None) for (lab, t, w) in q]
+    roles = []
+    for nd in T.nodes:
+        if nd.kind in "IJ":
+            roles.append("k" if nd.name == "mask" else "d" + "".join("1" if b else "0" for b in (D.mask == 0).reshape(-1).tolist()))
+    return T, outs, ";".join(roles)
+
+
+def search_observed_only(env, case, model, D, labels, rng):
+    """Failing-input search for the second premise: the model values at unobserved cells are replaced (finite values: they stand
+    for another trajectory at entries nobody observed) and the attachment terms / noise estimates are recomputed."""
+    torch = env.torch
+    with core.quiet():
+        st, _ = prepared_state(env, case, model, D)
+        base = {lab: t.detach().clone() for lab, t, _ in downstream_of_model(env, st, model)}
+    for trial, g in enumerate((0.5, -3.0, 10.0, None, None)):
+        patch = torch.full_like(D.values, g) if g is not None else torch.tensor(
+            [rng.uniform(-2, 2) for _ in range(D.values.numel())], dtype=torch.float32).reshape(D.values.shape)
+        with core.quiet():
+            st2, _ = prepared_state(env, case, model, D, patch_model=patch)
+            oth = {lab: t.detach().clone() for lab, t, _ in downstream_of_model(env, st2, model)}
+        for lab in labels:
+            if lab in base and lab in oth and not bool(nan_same(env, base[lab], oth[lab]).all()):
+                return (f"'{lab}' is {base[lab].reshape(-1)[:3].tolist()} and becomes {oth[lab].reshape(-1)[:3].tolist()} when only the model values "
+                        f"at the cells of y that are NOT observed change (set to {g if g is not None else 'random values'})",
+                        {"search": "model-at-unobserved-cells", "value": g, "label": lab})
+    return None
+
+
+def nan_same(env, a, b):
+    torch = env.torch
+    a, b = a.double(), b.double()
+    return (a == b) | (torch.isnan(a) & torch.isnan(b))
+
+
+def search_fill(env, case, model, D, labels, rng):
+    """Targeted failing-input search for outputs the analysis rejected: every masked cell of `values` / garbage age of
+    `timepoints` set to one garbage value at a time (finite, huge, nan, +inf, -inf), then random mixtures; the offending
+    outputs are compared bitwise (where their weight is not 0).  Returns (description, details) or None."""
+    torch = env.torch
+    with core.quiet():
+        base = {lab: (t.detach().clone(), None if w is None else w.detach().clone()) for lab, t, w in c06_quantities(env, case, model, D)}
+    mv = (D.mask == 0)
+    mt = ~(D.mask > 0).any(dim=-1)
+    trials = [("all=" + repr(g), g) for g in (float("nan"), float("inf"), float("-inf"), 1e30, -7.0, 123.456)] + [("mixed", None)] * 3
+    for name, g in trials:
+        Dp = copy.deepcopy(D)
+        if g is None:
+            gv = torch.tensor([rng.choice(GARBAGE) for _ in range(Dp.values.numel())], dtype=torch.float32).reshape(Dp.values.shape)
+            gt = torch.tensor([rng.choice(GARBAGE) for _ in range(Dp.timepoints.numel())], dtype=torch.float32).reshape(Dp.timepoints.shape)
+        else:
+            gv, gt = torch.full_like(Dp.values, g), torch.full_like(Dp.timepoints, g)
+        Dp.values = torch.where(mv, gv, Dp.values)
+        Dp.timepoints = torch.where(mt, gt, Dp.timepoints)
+        try:
+            with core.quiet():
+                oth = {lab: (t.detach().clone(), w) for lab, t, w in c06_quantities(env, case, model, Dp)}
+        except Exception as e:  # noqa
+            return (f"with {name} under the masks the evaluation raises {err_class(e)}: {str(e)[:160]}", {"fill": name})
+        for lab in labels:
+            if lab not in base or lab not in oth:
+                continue
+            a, w = base[lab]
+            b = oth[lab][0]
+            if a.shape != b.shape:
+                return (f"'{lab}' changes shape with {name} under the masks", {"fill": name, "label": lab})
+            same = nan_same(env, a, b)
+            if w is not None:
+                same = same | (w == 0)
+            if not bool(same.all()):
+                idx = (~same).nonzero()[0].tolist()
+                return (f"'{lab}'{idx} is {float(a[tuple(idx)])!r} with the loader's zeros and {float(b[tuple(idx)])!r} with {name} at the masked "
+                        f"cells of Dataset.values / the ages of visits without observed feature", {"fill": name, "label": lab, "index": idx})
+    return None
+
+
+def taint_case(env, chk, case, lines, expect):
+    """(C) record the C06 quantities on the dataset, on a copy with garbage (nan / inf included) under the masks and on a
+    re-padded copy; queue the Lean requests."""
+    torch = env.torch
+    cj = dict(case, kind="taint")
+    try:
+        with core.quiet():
+            df, D, model, _ = build_dataset(env, case)
+    except Exception as e:  # noqa
+        chk.tag("build", err_class(e))
+        return
+    vr = random.Random(case["var_seed"] + 17)
+    recs = []
+    try:
+        variants = [("clean", D)]
+        Df, _ = variant(env, D, "fill", vr)
+        variants.append(("fill", Df))
+        Dp, pad = variant(env, D, "both", vr)
+        variants.append((f"pad+{pad}", Dp))
+        for vname, Dv in variants:
+            with core.quiet():
+                T, outs = record_quantities(env, case, model, Dv)
+            recs.append((vname, Dv, T, outs))
+    except Exception as e:  # noqa
+        f31 = case["noise"] == "bernoulli" and len(recs) >= 1 and "within the support" in str(e)
+        chk.impl_failure(dict(cj, variant="fill"), f"evaluating the quantities on the copy with garbage under the masks raises {err_class(e)}: "
+                         f"{type(e).__name__}: {str(e)[:200]}" if recs else
+                         f"recording the quantities failed: {err_class(e)}: {type(e).__name__}: {str(e)[:200]}", finding=F31 if f31 else None)
+        if not recs:
+            chk.case(("taint", repr(sorted(case.items()))), nontrivial=False)
+            return
+    try:
+        with core.quiet():
+            T2, outs2, roles2 = record_observed_only(env, case, model, D)
+        lines.append("taint " + T2.program([o[1] for o in outs2]) + f" roles={roles2} " + T2.leaf_data())
+        expect.append({"case": dict(cj, variant="observed-only"), "D": D, "T": T2, "outs": outs2, "model": model, "base_case": case,
+                       "observed_only": True})
+    except Exception as e:  # noqa
+        chk.impl_failure(dict(cj, variant="observed-only"), f"recording the noise update failed: {err_class(e)}: {type(e).__name__}: {str(e)[:200]}")
+    sk0 = recs[0][2].skeleton()
+    for vname, Dv, T, outs in recs:
+        info = {"case": dict(cj, variant=vname), "D": Dv, "T": T, "outs": outs, "model": model, "base_case": case}
+        if T.skeleton() != sk0:
+            sk = T.skeleton()
+            k = next((q for q, (x, y) in enumerate(zip(sk0, sk)) if x != y), min(len(sk0), len(sk)))
+            info["skeleton_diff"] = f"first difference at node {k}: `{sk0[k] if k < len(sk0) else '-'}` (clean dataset) vs `{sk[k] if k < len(sk) else '-'}` ({vname})"
+        chk.tag("taint_programs_across_variants", "identical-up-to-shapes" if T.skeleton() == sk0 else "DIFFERENT")
+        for k_, c in T.unknown_ops.items():
+            chk.tag("taint_unknown_op", k_, c)
+        lines.append("taint " + T.program([o[1] for o in outs] + [o[3] for o in outs if o[3] is not None][:0]) +
+                     f" roles={garbage_roles(env, Dv, T)} " + T.leaf_data())
+        expect.append(info)
+        chk.tag("taint_nodes", f"{50 * (len(T.nodes) // 50)}+")
+    chk.case(("taint", case["model"], case["noise"], case["data_seed"], case["var_seed"]), nontrivial=bool((D.mask == 0).any()),
+             tags={"part": "taint", "model": case["model"], "noise": case["noise"]})
+
+
+def handle_taint(env, chk, resp, info, line):
+    cj, T, outs, D = info["case"], info["T"], info["outs"], info["D"]
+    torch = env.torch
+    if resp.startswith("err") or resp == "bad-request":
+        chk.disagree(cj, "ran", resp, "model refuses the taint request")
+        return
+    parts = dict(p.split("=", 1) for p in resp.split(" "))
+    flags = dict(it.split(":", 1) for it in parts["flags"].split(";"))
+    vals = {}
+    for it in parts["vals"].split(";"):
+        o, sh, d = it.split(":")
+        vals[o] = (sh, d)
+    chk.tag("taint_xcheck_fnApply", {"1": "agrees", "na": "not-applicable(operation outside the table)"}.get(parts.get("xcheck"), "DIFFERS"))
+    if parts.get("xcheck") not in ("1", "na"):
+        chk.disagree(cj, "Trace.fnApply", parts.get("xcheck"), "the gather translation of a node disagrees with Trace.fnApply on the recorded inputs")
+    # ---- the verdict: every output element that matters must not be dirty
+    offending = []
+    for lab, nd, t, wnd, w in outs:
+        f = flags.get(str(nd), "")
+        if len(f) != t.numel():
+            chk.disagree(cj, t.numel(), len(f), f"number of flags of {lab}")
+            continue
+        bad = [q for q, c in enumerate(f) if c == "d"]
+        if w is not None:
+            wz = (w == 0).reshape(-1).tolist()
+            under = [q for q in bad if wz[q]]
+            bad = [q for q in bad if not wz[q]]
+            chk.tag("taint_cells", "dirty-under-weight-0(allowed)", len(under))
+        chk.tag("taint_cells", "known", f.count("k"))
+        chk.tag("taint_cells", "clean", f.count("c"))
+        if bad:
+            offending.append((lab, nd, bad))
+    reasons = []
+    if parts.get("unsupported", "_") != "_":
+        reasons.append("operations outside the table: " + ", ".join(T.nodes[int(k)].text()[:80] for k in parts["unsupported"].split(",")[:3]))
+    desc = [int(k) for k in parts.get("dirtyesc", "_").split(",") if k != "_"]
+    if info.get("observed_only"):
+        # under this premise the "garbage" are genuine model values: an assertion on them (torch.distributions' argument
+        # validation, WeightedTensor's weight check) can not fire differently
+        desc = [k for k in desc if not T.nodes[k].is_assert]
+    if desc:
+        k = desc[0]
+        reasons.append(f"a value that depends on a masked cell is turned into a python value at {T.nodes[k].site}")
+        offending.append((f"<escape at {T.nodes[k].site}>", k, [0]))
+    if "skeleton_diff" in info:
+        reasons.append("the recorded program depends on what is under the mask: " + info["skeleton_diff"])
+    chk.tag("taint_verdict" + ("_observed_only" if info.get("observed_only") else ""), "all-clean" if not (offending or reasons) else "REJECTED")
+    if offending or reasons:
+        lab, nd, bad = offending[0] if offending else ("<program>", None, [])
+        path_txt = ""
+        if nd is not None and not lab.startswith("<escape"):
+            pr = chk.model([line.replace("taint ", "taintpath ", 1) + f" out={nd} pos={bad[0]}"])[0]
+            if pr.startswith("path="):
+                ids = [int(x.split(":")[0]) for x in pr[5:].split(",") if x != "_"]
+                path_txt = " <- ".join(T.nodes[i].text().split("|")[1] if T.nodes[i].kind == "O" else f"{T.nodes[i].kind}:{T.nodes[i].name}" for i in ids[:12])
+        what = (f"recorded program ({cj['variant']}): {len(offending)} output(s) may depend on masked cells; first: '{lab}' element {bad[:3]}"
+                f"{' via ' + path_txt if path_txt else ''}{'; ' + '; '.join(reasons) if reasons else ''}")
+        found = None
+        try:
+            labs = [o[0] for o in offending if not o[0].startswith("<")] or [o[0] for o in outs]
+            if info.get("observed_only"):
+                found = search_observed_only(env, info["base_case"], info["model"], D, labs, random.Random(info["base_case"]["var_seed"] + 6))
+            else:
+                found = search_fill(env, info["base_case"], info["model"], D, labs, random.Random(info["base_case"]["var_seed"] + 5))
+        except Exception as e:  # noqa
+            chk.note(f"targeted search failed: {type(e).__name__}: {str(e)[:100]}")
+        # F31 region: Bernoulli observation model, the only offence is torch's support validation reading the masked cells
+        f31 = (info["base_case"]["noise"] == "bernoulli" and all(o[0].startswith("<escape") and "_validate_sample" in o[0] for o in offending)
+               and not [r for r in reasons if not r.startswith("a value that depends")])
+        if found:
+            chk.impl_failure(dict(cj, **found[1]), f"{what}; concrete failing input: {found[0]}", finding=F31 if f31 else None)
+        else:
+            chk.disagree(cj, "every C06 output clean", (lab, bad[:3], path_txt), what)
+        return
+    # ---- validation of the translation: the gather evaluation reproduces the real tensors (where they are not garbage)
+    worst = None
+    for lab, nd, t, wnd, w in outs:
+        sh, d = vals.get(str(nd), ("?", "_"))
+        if sh != tr.shp(t.shape):
+            worst = f"{lab}: shape {sh} vs torch {tr.shp(t.shape)}"
+            break
+        lv = torch.tensor([core.parse_float(x) for x in core.split_ne(d)], dtype=torch.float64).reshape(t.shape)
+        tv = t.detach().double()
+        ok = ((lv - tv).abs() <= TR_RTOL * (1 + tv.abs())) | nan_same(env, lv, tv)
+        f = flags[str(nd)]
+        dirty = torch.tensor([c == "d" for c in f], dtype=torch.bool).reshape(t.shape)
+        ok = ok | dirty
+        if not bool(ok.all()):
+            idx = (~ok).nonzero()[0].tolist()
+            worst = f"{lab}{idx}: lean {float(lv[tuple(idx)])!r} vs torch {float(tv[tuple(idx)])!r}"
+            break
+    chk.tag("taint_eval", "agrees" if worst is None else "DIFFERS")
+    if worst is not None:
+        chk.disagree(cj, "real tensors", worst, "the Lean evaluation of the gather program does not reproduce the real tensors (tracer or translation wrong)")
+
+
+def f31_probe(env, chk, case):
+    """Witness of F31 on every run: a binary dataset, nan at the masked cells of Dataset.values, the attachment term."""
+    torch = env.torch
+    try:
+        with core.quiet():
+            df, D, model, _ = build_dataset(env, case)
+            Dp = copy.deepcopy(D)
+            Dp.values = torch.where(D.mask == 0, torch.full_like(D.values, float("nan")), D.values)
+            st = model.state.clone(disable_auto_fork=True)
+            model.put_data_variables(st, Dp)
+            torch.manual_seed(case["seed"])
+            st.put_individual_latent_variables(env.LVInit.PRIOR_SAMPLES, n_individuals=D.n_individuals)
+            try:
+                st["nll_attach_ind"]
+                raised = None
+            except ValueError as e:
+                raised = str(e)[:160]
+    except Exception as e:  # noqa
+        chk.note(f"F31 probe could not run: {type(e).__name__}: {str(e)[:100]}")
+        return
+    listed = [f for f in chk.findings if f.get("id") == F31 and f.get("status") == "finding"]
+    if raised:
+        if listed:
+            chk.known_finding_reproduces(F31, f"Bernoulli model, nan at {int((D.mask == 0).sum())} masked cells of Dataset.values: nll_attach_ind raises ValueError: {raised}")
+        else:
+            chk.impl_failure(dict(case, kind="taint", variant="f31-probe"), f"Bernoulli model, nan at the masked cells of Dataset.values: nll_attach_ind raises ValueError: {raised}")
+    elif listed:
+        chk.note("finding F31 no longer reproduces")
+
+
+def taint_part(env, chk, cases):
+    lines, expect = [], []
+    for case in cases:
+        taint_case(env, chk, case, lines, expect)
+    out = chk.model(lines)
+    for resp, info, line in zip(out, expect, lines):
+        try:
+            handle_taint(env, chk, resp, info, line)
+        except Exception as e:  # noqa
+            chk.disagree(info["case"], "?", resp[:200], f"unparsable taint response ({type(e).__name__}: {str(e)[:80]})")
+
+
 def meta_cases(chk):
     rng = chk.rng
     combos = [("logistic", "scalar"), ("logistic", "diagonal"), ("linear", "diagonal"), ("linear", "scalar"),
@@ -737,8 +1155,12 @@ def run(chk: core.Check):
                 "at least one masked cell; distinct by configuration.")
     tensor_part(env, chk)
     corpus = [c for c in core.load_corpus(PROP) if isinstance(c, dict) and c.get("model")]
-    for case in corpus + meta_cases(chk):
-        case = {k: v for k, v in case.items() if k not in ("variant", "pad", "table_head")}
+    cases = [{k: v for k, v in case.items() if k not in ("variant", "pad", "table_head", "kind", "fill", "label", "index")}
+             for case in corpus + meta_cases(chk)]
+    bern = gen_case(random.Random(707), "quick", "logistic", "bernoulli")
+    taint_part(env, chk, (cases if chk.tier == "quick" else cases[: 1 + 3 * 6]) + [bern])
+    f31_probe(env, chk, bern)
+    for case in cases:
         metamorphic_case(env, chk, case)
     for f in chk.findings:
         if f.get("id") == "F3" and f.get("status") == "finding":
@@ -798,6 +1220,10 @@ def replay(chk: core.Check, payload):
         chk.model([f"wsum fill={case['fill']} keys={core.fmt_list(k)} n={n} vals={core.fmt_list(case['vals'])} w={''.join('1' if b else '0' for b in case['mask'])}"])
         chk.case(("wsum-replay",), sample=case)
         return
-    case = {k: v for k, v in case.items() if k not in ("variant", "pad", "table_head")}
+    is_taint = case.get("kind") == "taint"
+    case = {k: v for k, v in case.items() if k not in ("variant", "pad", "table_head", "kind", "fill", "label", "index")}
+    if is_taint:
+        taint_part(env, chk, [case])
+        return
     metamorphic_case(env, chk, case)
     chk.model(["wsum fill=0 keys=0 n=1 vals=1 w=1"])
